@@ -36,6 +36,12 @@ var libInverse = map[string]string{
 	"(*github.com/ethereum/go-ethereum/crypto/ecies.PublicKey).ExportECDSA": "github.com/ethereum/go-ethereum/crypto/ecies.ImportECDSAPublic",
 }
 
+// encoders whose output is never the empty string and never contains the list separator
+var nonEmptyEncoders = map[string]bool{
+	"(github.com/ethereum/go-ethereum/common.Address).Hex":  true, // "0x" + 40 hex digits
+	"github.com/ethereum/go-ethereum/common/hexutil.Encode": true, // "0x" + hex digits
+}
+
 type evAttr struct {
 	key   string
 	codec string // encoder/decoder helper name
@@ -485,6 +491,29 @@ func c14Leaves(p *Prog, c *Check) {
 					}
 				}
 				used = append(used, shortCallee(nm)+"↔"+shortCallee(inv))
+			}
+		}
+		// list codecs: elements joined by a separator are recovered by splitting only if every element's
+		// encoding is non-empty (otherwise [x] with an empty x and the empty list encode to the same
+		// string) — the element encoder must be one that always emits a prefix or fixed width
+		if len(callsTo(ef, "strings.Join")) > 0 {
+			for _, b := range ef.Blocks {
+				for _, in := range b.Instrs {
+					call, ok := in.(*ssa.Call)
+					if !ok {
+						continue
+					}
+					vals, isApp := appendedValues(call)
+					if !isApp || len(vals) != 1 {
+						continue
+					}
+					et := efi.T(vals[0])
+					if !nonEmptyEncoders[et.callName()] {
+						diffs = append(diffs, fmt.Sprintf("%s joins element encodings produced by %s, which can be empty: a one-element list holding an empty value and the empty list become indistinguishable", enc, siteTag.ReplaceAllString(et.s, "")))
+					} else {
+						used = append(used, "elements by "+shortCallee(et.callName())+" (never empty)")
+					}
+				}
 			}
 		}
 		// the encoded string itself is produced by a recognised encoder (a library call this table knows
